@@ -98,7 +98,15 @@ func PayoutProfile(seed int64, out *Recorder, nOps int) *Chain {
 		res := []interface{}{}
 		for _, u := range sk.GetAllUnbondingDelegations(ctx, addr) {
 			for _, e := range u.Entries {
-				res = append(res, D{"val": u.ValidatorAddress, "t": nsStr(e.CompletionTime), "bal": e.Balance.String()})
+				// every entry must stay in the staking module's completion queue (the time slice of its completion time names
+				// the delegator / validator pair), or it never completes
+				queued := false
+				for _, pair := range sk.GetUBDQueueTimeSlice(ctx, e.CompletionTime) {
+					if pair.DelegatorAddress == u.DelegatorAddress && pair.ValidatorAddress == u.ValidatorAddress {
+						queued = true
+					}
+				}
+				res = append(res, D{"val": u.ValidatorAddress, "t": nsStr(e.CompletionTime), "bal": e.Balance.String(), "queued": queued})
 			}
 		}
 		return res
